@@ -42,6 +42,7 @@ class chunks(object):
         if decMax > 90.0 - 3.0*minSize:
             decMax = 90.0
         self.decBounds = decMin + ((decMax - decMin) * np.arange(self.nDec + 1, dtype='d'))/float(self.nDec)
+        self.decBounds[self.nDec] = decMax
         #
         # Find ra offset which minimizes the range in ra (this should take care
         # of the case that ra crosses zero in some parts
